@@ -42,7 +42,9 @@ Norm(rs) ==
        ELSE IF t # <<>> /\ h.c # "H" /\ Head(t).c = h.c THEN <<Run(h.c, h.n + Head(t).n)>> \o Tail(t)
        ELSE <<h>> \o t
 
-Part(h, n) == IF h.c = "H" THEN Run("X", n) ELSE Run(h.c, n)    \* a piece of a run; pieces of headers are not tracked
+\* a piece of a run; a piece of a header is class "X" (not tracked by the decoder model; k/dl kept so that a truncated
+\* input can still be concretised: an X run of an input datagram is the first n bytes of that header)
+Part(h, n) == IF h.c \in {"H", "X"} THEN [c |-> "X", n |-> n, k |-> h.k, dl |-> h.dl] ELSE Run(h.c, n)
 RECURSIVE Drop(_, _)
 Drop(rs, a) == IF a <= 0 \/ rs = <<>> THEN rs
                ELSE LET h == Head(rs) IN
@@ -132,7 +134,7 @@ Decode(d) ==
        IN IF w.err # "" THEN Err(w.err)
           ELSE IF rem # 0 /\ (rem < 4 \/ rem > 24) THEN Err("len")
           ELSE IF \E i \in 1..Len(w.fields) : w.fields[i].kind = "invalid" THEN Err("decrypt")
-          ELSE IF d.ver = 5 /\ (FirstDraft(w.fields) = 0 \/ ~IsDraftOk(w.fields[FirstDraft(w.fields)])) THEN Err("v5draftid")
+          ELSE IF d.ver = 5 /\ (FirstDraft(w.fields) = 0 \/ ~IsDraftOk(w.fields[FirstDraft(w.fields)])) THEN Err("v5draft")
           ELSE [res |-> "ok", p |-> [ver |-> d.ver, hc |-> HdrNorm(d.ver, d.hc), fields |-> w.fields,
                                      mac |-> Slice(d.body, w.end, Bytes(d.body))]]
 
